@@ -28,7 +28,7 @@ go build -modfile "$MODFILE" -o "$GEN" ./harness/c14/gen || { echo "c14 prebuild
 STUBS="$SCRATCH/c14-stubs.txt"
 LOG="$SCRATCH/c14-build.log"
 : > "$STUBS"
-for attempt in 1 2 3 4 5 6 7 8; do
+for attempt in 1 2 3 4 5 6 7 8 9 10 11 12; do
   "$GEN" -repo "$REPO" -outdir "$HERE" -stubs "$STUBS" || exit 1
   : > "$LOG"
   ok=1
@@ -44,5 +44,5 @@ for attempt in 1 2 3 4 5 6 7 8; do
   "$GEN" -fix "$LOG" -outdir "$HERE" -stubs "$STUBS" || { cat "$LOG" >&2; echo "c14 prebuild: build errors that cannot be attributed to a member driver" >&2; exit 1; }
 done
 cat "$LOG" >&2
-echo "c14 prebuild: still failing after 8 rounds of stubbing" >&2
+echo "c14 prebuild: still failing after 12 rounds of stubbing" >&2
 exit 1
